@@ -277,17 +277,18 @@ Definition toy_grind (fuel : nat) (c : coin Z) (gf : Z) := grind Z toy_merge_int
 
 (* ------------------------------------------------------------------------------------------------
    Instantiation 2: WideToy<B, MODE> (harness/src/bin/c19.rs): 32-byte digest of four 64-bit words
-   word_i = post_MODE (toy_hash (input ++ [i])), so that every byte of as_bytes() is live (extension
-   coefficients, f128 high half) and the rejection branch of draw is taken often:
-     mode 0: plain                     mode 1: 3 of 4 words get their high 32 bits set (>= M for f64/f62)
-     mode 2: odd words -> 2^64-1       mode 3: words -> 2^64-1 unless their low 10 bits are 0 (draw mostly Err) *)
+   word_i = post_MODE (toy_hash (i :: le8 (toy_hash input))), so that every byte of as_bytes() is live
+   (extension coefficients, f128 high half) and the rejection branch of draw is taken often:
+     mode 0: plain                     mode 1: 1 of 4 words gets its high 32 bits set (>= M for f64/f62)
+     mode 2: 1 of 8 words -> 2^64-1    mode 3: words -> 2^64-1 unless their low 10 bits are 0 (draw mostly Err) *)
 Definition wide_post (mode w : Z) : Z :=
   if mode =? 0 then w
-  else if mode =? 1 then (if Z.land w 3 =? 0 then w else Z.lor w 18446744069414584320)
-  else if mode =? 2 then (if Z.odd w then 18446744073709551615 else w)
+  else if mode =? 1 then (if Z.land w 3 =? 3 then Z.lor w 18446744069414584320 else w)
+  else if mode =? 2 then (if Z.land w 7 =? 7 then 18446744073709551615 else w)
   else (if Z.land w 1023 =? 0 then w else 18446744073709551615).
 Definition wide_hash (mode : Z) (bytes : list Z) : list Z :=
-  map (fun i => wide_post mode (toy_hash (bytes ++ [i]))) [0; 1; 2; 3].
+  let h := to_le_bytes 8 (toy_hash bytes) in
+  map (fun i => wide_post mode (toy_hash (i :: h))) [0; 1; 2; 3].
 Definition wide_dbytes (d : list Z) : list Z := flat_map (to_le_bytes 8) d.
 Definition wide_merge (mode : Z) (a b : list Z) : list Z := wide_hash mode (wide_dbytes a ++ wide_dbytes b).
 Definition wide_merge_int (mode : Z) (s : list Z) (v : Z) : list Z := wide_hash mode (wide_dbytes s ++ to_le_bytes 8 v).
